@@ -96,6 +96,7 @@ def run(check, prog):
     from . import c14
     c14.r1_support(check, prog)
     entry(check, prog)
+    default_model_centre(check, prog)
     assembly(check, prog)
     reported(check, prog)
     wiring(check, prog)
@@ -682,6 +683,36 @@ def entry(check, prog):
     check.require(ok, 'L6-strategy-table', 'validate_strategy',
                   'a strategy without the requested operation is rejected',
                   prog.loc(q, prog.func(q)))
+
+
+def default_model_centre(check, prog):
+    """L6b: the default model of a bare scatterer puts a prior on a named
+    coordinate ('x', 'y', 'z') whatever container holds the centre.  The centre
+    comes from the user's scatterer (Scatterer.parameters deep-copies it: a tuple
+    stays a tuple, and the library's own message asks for 'center ... (x, y, z)'),
+    so it must not be stored into element-wise: the new centre has to be built."""
+    q = INF + 'interface.replace_center'
+    if not prog.has_func(q):
+        return
+    fd = prog.func(q)
+    loc = prog.loc(q, fd)
+    it = Interp(prog, max_depth=1)
+    it.analyze(q)
+    pars = sym(fd.args.args[0].arg)
+    bad = []
+    for e in it.effects:
+        if e['kind'] == 'setitem' and e['base'][0] == 'idx' and e['base'][1][0] in ('sym', 'mut', 'upd'):
+            root = e['base'][1]
+            while root[0] in ('mut', 'upd'):
+                root = root[1]
+            if root == pars:
+                bad.append(e.get('target_src') or show(e['base'])[:60])
+    check.require(not bad, 'L6-fit-entry', 'replace_center',
+                  'a coordinate prior is placed into a newly built centre', loc,
+                  fail_detail='stores element-wise into the centre taken from the '
+                  'scatterer (%s): hp.fit(data, Sphere(center=(x, y, z)), parameters=[..., '
+                  '\'x\']) raises TypeError: \'tuple\' object does not support item '
+                  'assignment' % bad)
 
 
 # ----------------------------------------------------------------------
